@@ -287,3 +287,71 @@ package keeper
 //@   loop L1 invariant isProvider ==> contains(provider.TxAddresses, msg0.Creator)
 //@   loop L2 invariant -1 <= rangeindex && rangeindex < len(sps) && len(spAddresses) == rangeindex + 1
 //@   loop L3 invariant -1 <= rangeindex && rangeindex < len(order.Shards)
+
+// sumDur(infos, n): total duration of the first n queued renewals of a shard
+//@ ghost sumDur(Slice_order_RenewInfo, int) int
+//@ axiom sumDur.zero: forall s Slice_order_RenewInfo, n int :: n <= 0 ==> sumDur(s, n) == 0
+//@ axiom sumDur.step: forall s Slice_order_RenewInfo, n int :: n > 0 ==> sumDur(s, n) == sumDur(s, n - 1) + s[n - 1].Duration
+// two consequences of the definition by induction on n, assumed as lemmas (the solvers do not do induction):
+//@ axiom sumDur.prefix: forall s Slice_order_RenewInfo, t Slice_order_RenewInfo, n int :: (forall k int :: 0 <= k && k < n ==> s[k] == t[k]) ==> sumDur(s, n) == sumDur(t, n)
+//@ axiom sumDur.mono: forall s Slice_order_RenewInfo, m int, n int :: 0 <= m && m <= n && (forall k int :: 0 <= k && k < n ==> s[k].Duration >= 0) ==> 0 <= sumDur(s, m) && sumDur(s, m) <= sumDur(s, n)
+
+// Renew: the owner of data models buys a further storage period for each of them; the providers top up their shard collateral.
+//@ func (msgServer) Renew(goCtx, msg) (resp, err)
+//@   requires msg != nil
+//@   requires [C16.inv.order] forall i int :: 0 <= i && i <= MaxUint64 && has(Order, i) ==> i < effOrderCount(get(OrderCount))
+//@   requires effOrderCount(get(OrderCount)) + len(msg.Proposal.Data) < MaxUint64
+//@   requires forall c string :: has(Metadata, c) ==> Metadata[c].CreatedAt + Metadata[c].Duration <= MaxUint64
+//@   requires [C13.inv.metaorder] forall c string :: has(Metadata, c) && has(Order, Metadata[c].OrderId) ==> Order[Metadata[c].OrderId].DataId == c
+//@   requires [C11.sched.unique] forall c string, h int :: has(Metadata, c) && 0 <= h && h <= MaxUint64 && has(ExpiredData, h) && contains(ExpiredData[h].Data, c) ==> h == u64(Metadata[c].CreatedAt + Metadata[c].Duration)
+//@   requires [C11.sched.once] forall c string, h int, i int, j int :: 0 <= h && h <= MaxUint64 && has(ExpiredData, h) && 0 <= i && i < j && j < len(ExpiredData[h].Data) ==> !(ExpiredData[h].Data[i] == c && ExpiredData[h].Data[j] == c)
+//@   requires forall i int :: 0 <= i && i <= MaxUint64 && has(Shard, i) ==> Shard[i].Pledge.Amount >= 0 && validAddr(Shard[i].Sp)
+//@       && Shard[i].CreatedAt + Shard[i].Duration + sumDur(Shard[i].RenewInfos, len(Shard[i].RenewInfos)) <= MaxUint64 - 63072000 * len(msg.Proposal.Data) - H
+//@   requires [C13.inv.distinct] forall i int, a int, b int :: 0 <= i && i <= MaxUint64 && has(Order, i) && 0 <= a && a < b && b < len(Order[i].Shards) ==> Order[i].Shards[a] != Order[i].Shards[b]
+//@   requires [C16.inv.metaorder] forall c string :: has(Metadata, c) ==> Metadata[c].OrderId < effOrderCount(get(OrderCount))
+//@   modifies *
+//@   ensures [C09.renew.auth] forall d string :: Metadata[d] != old(Metadata[d]) || !(has(Metadata, d) <==> old(has(Metadata, d))) ==>
+//@       err == nil && requestSignedBy(msg.Proposal.Owner) && old(has(Metadata, d)) && old(Metadata[d].Owner) == msg.Proposal.Owner
+//@   ensures [C09.renew.keep] forall d string :: (has(Metadata, d) <==> old(has(Metadata, d))) && (has(Metadata, d) ==> Metadata[d].Owner == old(Metadata[d].Owner)
+//@       && Metadata[d].Commits == old(Metadata[d].Commits) && Metadata[d].Commit == old(Metadata[d].Commit)
+//@       && Metadata[d].ReadonlyDids == old(Metadata[d].ReadonlyDids) && Metadata[d].ReadwriteDids == old(Metadata[d].ReadwriteDids))
+//@   ensures [C10.renew.actor] err == nil ==> actsFor(msg.Creator, msg.Provider, old(has(Node, msg.Provider)), old(Node[msg.Provider]))
+//@   at RenewOrder assert [C04.renew.quote] order.Amount.Denom == BondDenom && order.Operation == 3 && (order.Size_ <= MaxInt64 ==>
+//@       order.Amount.Amount == div(1000000000000 * order.Replica * order.Size_ * order.Duration, 1000000000000000000)
+//@            + (mod(1000000000000 * order.Replica * order.Size_ * order.Duration, 1000000000000000000) == 0 ? 0 : 1))
+//@   at SetPledge assert [C07.renew.topup] [C14.renew.topup] pledge.TotalShardPledged.Amount == Pledge[shard.Sp].TotalShardPledged.Amount + extraPledge.Amount
+//@       && pledge.TotalStoragePledged == Pledge[shard.Sp].TotalStoragePledged && pledge.TotalStorage == Pledge[shard.Sp].TotalStorage && pledge.UsedStorage == Pledge[shard.Sp].UsedStorage
+//@   at SetShard assert [C07.renew.shardpledge] shard.Pledge.Amount >= Shard[shard.Id].Pledge.Amount && shard.Pledge.Amount >= newPledge.Amount
+//@   at SetShard assert [C11.renew.queue] len(shard.RenewInfos) == len(Shard[shard.Id].RenewInfos) + 1 && shard.RenewInfos[len(shard.RenewInfos) - 1].Duration == msg.Proposal.Duration
+//@       && shard.RenewInfos[len(shard.RenewInfos) - 1].OrderId == newOrder.Id && shard.CreatedAt == Shard[shard.Id].CreatedAt && shard.Duration == Shard[shard.Id].Duration
+//@   at SetShard assert [C11.renew.end] newExpiredAt >= shard.CreatedAt + shard.Duration + sumDur(shard.RenewInfos, len(shard.RenewInfos))
+//@   loop L1 invariant -1 <= rangeindex
+//@   loop L1 invariant isProvider ==> contains(provider.TxAddresses, msg0.Creator)
+//@   loop L2 frameexcept resp
+//@   loop L2 invariant -1 <= rangeindex && rangeindex < len(msg0.Proposal.Data)
+//@   loop L2 invariant forall c string :: has(Metadata, c) ==> Metadata[c].CreatedAt + Metadata[c].Duration <= MaxUint64
+//@   loop L2 invariant forall c string, h int :: has(Metadata, c) && 0 <= h && h <= MaxUint64 && has(ExpiredData, h) && contains(ExpiredData[h].Data, c) ==> h == u64(Metadata[c].CreatedAt + Metadata[c].Duration)
+//@   loop L2 invariant forall c string, h int, i int, j int :: 0 <= h && h <= MaxUint64 && has(ExpiredData, h) && 0 <= i && i < j && j < len(ExpiredData[h].Data) ==> !(ExpiredData[h].Data[i] == c && ExpiredData[h].Data[j] == c)
+//@   loop L2 invariant forall c string :: has(Metadata, c) && has(Order, Metadata[c].OrderId) ==> Order[Metadata[c].OrderId].DataId == c
+//@   loop L2 invariant forall i int :: 0 <= i && i <= MaxUint64 && has(Order, i) ==> i < effOrderCount(get(OrderCount))
+//@   loop L2 invariant effOrderCount(get(OrderCount)) <= old(effOrderCount(get(OrderCount))) + rangeindex + 1
+//@   loop L2 invariant forall c string :: has(Metadata, c) ==> Metadata[c].OrderId < effOrderCount(get(OrderCount))
+//@   loop L2 invariant forall i int, a int, b int :: 0 <= i && i <= MaxUint64 && has(Order, i) && 0 <= a && a < b && b < len(Order[i].Shards) ==> Order[i].Shards[a] != Order[i].Shards[b]
+//@   loop L2 invariant forall i int :: 0 <= i && i <= MaxUint64 && has(Shard, i) ==> Shard[i].Pledge.Amount >= 0 && validAddr(Shard[i].Sp)
+//@       && Shard[i].CreatedAt + Shard[i].Duration + sumDur(Shard[i].RenewInfos, len(Shard[i].RenewInfos)) <= MaxUint64 - 63072000 * (len(msg0.Proposal.Data) - rangeindex - 1) - H
+//@   loop L2 invariant [C09.renew.auth] forall d string :: Metadata[d] != old(Metadata[d]) || !(has(Metadata, d) <==> old(has(Metadata, d))) ==> old(has(Metadata, d)) && old(Metadata[d].Owner) == sigDid
+//@   loop L2 invariant [C09.renew.keep] forall d string :: (has(Metadata, d) <==> old(has(Metadata, d))) && (has(Metadata, d) ==> Metadata[d].Owner == old(Metadata[d].Owner)
+//@       && Metadata[d].Commits == old(Metadata[d].Commits) && Metadata[d].Commit == old(Metadata[d].Commit)
+//@       && Metadata[d].ReadonlyDids == old(Metadata[d].ReadonlyDids) && Metadata[d].ReadwriteDids == old(Metadata[d].ReadwriteDids))
+//@   loop L3 invariant -1 <= rangeindex && rangeindex < len(order.Shards) && len(shards) == rangeindex + 1
+//@   loop L3 invariant forall q int :: 0 <= q && q < len(shards) ==> has(Shard, order.Shards[q]) && shards[q] == Shard[order.Shards[q]] && shards[q].Id == order.Shards[q]
+//@   loop L4 invariant -1 <= rangeindex && rangeindex < len(shards)
+//@   loop L4 invariant forall i int :: 0 <= i && i <= MaxUint64 ==> (has(Shard, i) <==> entry(has(Shard, i)))
+//@   loop L4 invariant forall i int :: 0 <= i && i <= MaxUint64 && has(Shard, i) ==> Shard[i].Pledge.Amount >= 0 && validAddr(Shard[i].Sp)
+//@   loop L4 invariant forall q int :: rangeindex < q && q < len(shards) ==> has(Shard, shards[q].Id) && Shard[shards[q].Id] == shards[q]
+//@   loop L4 invariant forall a int, b int :: 0 <= a && a < b && b < len(shards) ==> shards[a].Id != shards[b].Id
+//@   loop L4 invariant forall i int :: 0 <= i && i <= MaxUint64 && has(Shard, i) ==> Shard[i].CreatedAt + Shard[i].Duration + sumDur(Shard[i].RenewInfos, len(Shard[i].RenewInfos))
+//@       <= entry(Shard[i].CreatedAt + Shard[i].Duration + sumDur(Shard[i].RenewInfos, len(Shard[i].RenewInfos))) + msg0.Proposal.Duration
+//@   loop L5 invariant -1 <= rangeindex && rangeindex < len(shard.RenewInfos)
+//@   loop L5 invariant shard.CreatedAt + shard.Duration + sumDur(shard.RenewInfos, len(shard.RenewInfos)) <= MaxUint64
+//@   loop L5 invariant [C11.renew.end] shardExpiredAt == shard.CreatedAt + shard.Duration + sumDur(shard.RenewInfos, rangeindex + 1)
